@@ -68,16 +68,24 @@ type gcfg struct {
 	proto  Proto
 	static bool
 	block  bool
-	slow   bool   // revoke/lost callbacks that name a partition take 1.3 s
-	auto   bool   // default autocommit (2.3 s) instead of DisableAutoCommit
-	short  bool   // session 7 s, rebalance 4 s (thinks r and s exist)
-	cb     string // log | commit | addtopic | default (no callbacks: default revoke)
+	slow   bool // revoke/lost callbacks that name a partition take 1.3 s
+	auto   bool // default autocommit (2.3 s) instead of DisableAutoCommit
+	short  bool // session 7 s, rebalance 4 s (thinks r and s exist)
+	// steal: KIP-848 with the server-side RANGE assignor (the uniform one is
+	// sticky and never empties a member on a join), topic t with ONE partition
+	// (fewer partitions than members) and static instance ids ordered so that
+	// the joiner sorts before the owner: a join takes EVERYTHING away from the
+	// current owner in one reconciliation (its new assignment is empty).
+	steal bool
+	cb    string // log | commit | addtopic | default (no callbacks: default revoke)
 }
 
 var gcfgs07 = []gcfg{
 	{name: "eager-slow", proto: Eager, slow: true, cb: "log"},
 	{name: "coop-slow", proto: Coop, slow: true, cb: "log"},
 	{name: "848-slow", proto: Next, slow: true, cb: "log"},
+	{name: "848-range-steal-slow", proto: Next, static: true, steal: true, slow: true, cb: "log"},
+	{name: "848-range-steal-addtopic", proto: Next, static: true, steal: true, slow: true, cb: "addtopic"},
 	{name: "848-addtopic", proto: Next, slow: true, cb: "addtopic"},
 	{name: "coop-addtopic", proto: Coop, slow: true, cb: "addtopic"},
 	{name: "eager-commit", proto: Eager, slow: true, cb: "commit"},
@@ -192,6 +200,9 @@ func (st *genState) opts() []kgo.Opt {
 	if st.cfg.block {
 		o = append(o, kgo.BlockRebalanceOnPoll())
 	}
+	if st.cfg.steal {
+		o = append(o, kgo.Balancers(kgo.RangeBalancer())) // 848: selects the server-side range assignor
+	}
 	if st.cfg.short {
 		o = append(o, kgo.SessionTimeout(shortSess), kgo.RebalanceTimeout(shortReb))
 	}
@@ -210,7 +221,11 @@ func (st *genState) join(m *gmember, offset time.Duration) {
 	}
 	o := st.opts()
 	if st.cfg.static {
-		o = append(o, kgo.InstanceID("i"+m.base))
+		id := "i" + m.base
+		if st.cfg.steal { // later joiners sort earlier: B < C < A
+			id = map[string]string{"A": "z-A", "B": "a-B", "C": "m-C"}[m.base]
+		}
+		o = append(o, kgo.InstanceID(id))
 	}
 	cl := g.Join(m.name, st.cfg.cb != "default", []string{"t"}, o...)
 	g.mu.Lock()
@@ -474,14 +489,18 @@ func genScenario(name string, c08, dev bool) *netctl.Scenario {
 			if cfg.short {
 				extra = append(extra, kfake.BrokerConfigs(map[string]string{"group.consumer.session.timeout.ms": fmt.Sprint(shortSess.Milliseconds())}))
 			}
-			g := NewN(x, cfg.proto, map[string]int32{"t": 3, "t2": 2}, 2, extra...)
+			nt := int32(3)
+			if cfg.steal {
+				nt = 1
+			}
+			g := NewN(x, cfg.proto, map[string]int32{"t": nt, "t2": 2}, 2, extra...)
 			x.Data = g
 			st := &genState{g: g, cfg: cfg, c08: c08, members: map[string]*gmember{}, addedOnce: map[string]bool{}}
 			g.Gen = st
 			if cfg.slow {
 				g.RevokeWork = 1300 * time.Millisecond
 			}
-			g.Preload("t", 3, 4)
+			g.Preload("t", nt, 4)
 			g.Preload("t2", 2, 2)
 			g.HookCommits()
 			switch cfg.cb {
@@ -527,7 +546,9 @@ func genScenario(name string, c08, dev bool) *netctl.Scenario {
 							x.Violate("harness:create-partitions", "%v", err)
 							return
 						}
-						g.C.MoveTopicPartition("t", 3, 0)
+						for p := nt; p < 4; p++ {
+							g.C.MoveTopicPartition("t", p, 0)
+						}
 						// MetadataMaxAge is minutes: the application asks for a
 						// refresh so that the liveness bound of Final is meaningful.
 						g.mu.Lock()
@@ -556,7 +577,7 @@ func genScenario(name string, c08, dev bool) *netctl.Scenario {
 						// polls: what a client prefetched before is now only
 						// part of the log.
 						g.Step(t, "produce-wave")
-						g.Preload("t", 3, 2)
+						g.Preload("t", nt, 2)
 					}
 				})
 			}
@@ -606,6 +627,11 @@ func genScenario(name string, c08, dev bool) *netctl.Scenario {
 				n[key]++
 			}
 			if !st.c08 {
+				// Let what the scripts started play out before judging: a join's
+				// reconciliation takes a few heartbeats plus the slow revoke, and
+				// "converged" read off the callback log is trivially true while
+				// the old owner has not even been told yet.
+				time.Sleep(6 * time.Second)
 				if !st.staticDeparted() {
 					deadline := time.Now().Add(2 * time.Minute)
 					ok, why := g.Converged()
